@@ -165,6 +165,7 @@ def variant? : Sexp → Option Variant
   -- forwarding wrappers around the concrete ctxt: transparent (theorem `wrappers_transparent`), the model is the same
   | .atom "assert" => some {}
   | .atom "assertdyn" => some {}
+  | .atom "assertwide" => some {}    -- around a context whose enter / exit are not interchangeable
   | .atom "assertarc" => some {}
   | .atom "ref" => some {}
   | .atom "box" => some {}
